@@ -8,3 +8,13 @@ package utils
 //@ func BytesToStringUnsafe
 //@   ensures len(result) == len(b)
 //@   ensures forall i int :: 0 <= i && i < len(b) ==> result[i] == b[i]
+
+//@ func SetDefaultNum
+//@   requires p != nil
+//@   modifies *p
+//@   ensures *p == ite(old(*p) == 0, d, old(*p))
+
+//@ func SetDefaultUnsignNum
+//@   requires p != nil
+//@   modifies *p
+//@   ensures *p == ite(old(*p) <= 0, d, old(*p))
